@@ -29,6 +29,7 @@ type c15Vec struct {
 		Sender string `json:"sender"`
 		Alter  string `json:"alter"`
 		Claim  string `json:"claim"`
+		Arg    int    `json:"arg"`
 	} `json:"in"`
 	Exp struct {
 		Deliver bool   `json:"deliver"`
@@ -154,10 +155,18 @@ func TestVerif_C15(t *testing.T) {
 			}
 			inner := c15Inner(g)
 			switch v.In.Alter {
-			case "flipbody":
-				inner[header.Len+(len(inner)-header.Len)/2] ^= 0x04
-			case "fliphdr":
-				inner[9] ^= 0x01 // a counter byte of the inner header
+			case "flipbit":
+				bit := v.In.Arg
+				if bit >= header.Len*8 { // ciphertext and tag
+					bit = header.Len*8 + (bit-header.Len*8)%((len(inner)-header.Len)*8)
+				}
+				inner[bit/8] ^= 0x80 >> (bit % 8)
+			case "retype":
+				// the header is clear text: the relay rewrites type and subtype over the genuine ciphertext
+				inner[0] = inner[0]&0xf0 | byte(v.In.Arg/16)
+				inner[1] = byte(v.In.Arg % 16)
+			case "newcounter":
+				inner[8], inner[9] = 0x00, 0x7f // far above anything the sender used
 			case "truncate":
 				inner = inner[:len(inner)-3]
 			case "splice":
@@ -197,15 +206,26 @@ func TestVerif_C15(t *testing.T) {
 			}
 			w.atR = append(w.atR, forged.Data)
 			w.T.TakeTun()
+			w.T.TakeUDP()
 			w.Deliver(forged)
 			out := w.T.TakeTun()
+			reaction := w.T.TakeUDP()
 			after := w.project()
 			id, _ := json.Marshal(v.In)
 			res.Case(string(id))
 			res.Hit("alter:" + v.In.Alter)
+			if v.In.Alter == "retype" {
+				res.Hit(fmt.Sprintf("retype:%d", v.In.Arg))
+			}
+			if v.In.Alter == "flipbit" && v.In.Arg < header.Len*8 {
+				res.Hit("flip:header")
+			}
 			res.Hit("claim:" + v.In.Claim)
 			detail := map[string]any{"vector": v.In, "expected": v.Exp}
 			key := fmt.Sprintf("%s:%s:claim-%s", v.In.Sender, v.In.Alter, v.In.Claim)
+			if v.In.Alter == "retype" || v.In.Alter == "flipbit" {
+				key = fmt.Sprintf("%s:%s-%d:claim-%s", v.In.Sender, v.In.Alter, v.In.Arg, v.In.Claim)
+			}
 			if v.Exp.Deliver {
 				if len(out) != 1 {
 					res.Mismatch("not-delivered:"+key, fmt.Sprintf("a genuine relayed packet from %s (relay claims %s) was not delivered exactly once (%d)", s.Name, v.In.Claim, len(out)), detail)
@@ -234,6 +254,20 @@ func TestVerif_C15(t *testing.T) {
 				delete(at, "R")
 				if !reflect.DeepEqual(bt, at) || !reflect.DeepEqual(w.hostsOf(before), w.hostsOf(after)) {
 					res.Mismatch("state-changed:"+key, fmt.Sprintf("an inner packet altered by the relay (%s) changed the endpoint's tunnels", v.In.Alter), detail)
+				}
+				// nothing the endpoint's key did not authenticate may make it answer
+				if len(reaction) != 0 {
+					detail["reaction"] = fmt.Sprintf("%x", reaction[0].Data)
+					res.Mismatch("answered:"+key, fmt.Sprintf("the endpoint answered (%d datagrams) an inner packet altered by the relay (%s)", len(reaction), v.In.Alter), detail)
+				}
+				// and the tunnel with the genuine sender still works
+				if _, g2 := w.capture(s, "AFTER-"+marker); g2 == nil {
+					res.Mismatch("tunnel-lost:"+key, "after the altered packet the sender no longer reaches the target through the relay", detail)
+				} else {
+					w.Deliver(g2)
+					if o2 := w.T.TakeTun(); len(o2) != 1 || !bytes.Contains(o2[0], []byte("AFTER-"+marker)) {
+						res.Mismatch("tunnel-broken:"+key, fmt.Sprintf("after the altered packet genuine traffic of %s is no longer delivered (%d)", s.Name, len(o2)), detail)
+					}
 				}
 			}
 			// the relay never holds the plaintext
